@@ -33,6 +33,7 @@ type Req struct {
 	H      int       `json:"h,omitempty"`
 	At     string    `json:"at"`
 	Retain bool      `json:"retain,omitempty"`
+	PID    int       `json:"pid,omitempty"`  // pub: packet identifier the application put on the message (0: none)
 	Hold   bool      `json:"hold,omitempty"` // do not release the gate of At when moving on
 	Gate   string    `json:"gate,omitempty"` // k = release: the gate to release
 	Ms     int       `json:"ms,omitempty"`   // k = sleep
@@ -53,6 +54,8 @@ type RetryOpts struct {
 	NoDisconnect        bool   `json:"noDisconnect,omitempty"`
 	DirectQoS0          bool   `json:"directQoS0,omitempty"`
 	HookEvents          bool   `json:"hookEvents,omitempty"`
+	GrantCap            *int   `json:"grantCap,omitempty"`       // the broker grants at most this QoS in SUBACK
+	PromptAcks          bool   `json:"promptAcks,omitempty"`     // Write returns only after the client's reader consumed the broker's answer
 	HoldLoopWakeMs      int    `json:"holdLoopWakeMs,omitempty"` // delay the reconnect loop when it wakes up (hook reconnLoopWake): the keep-alive goroutine goes first
 	SampleAfterMs       int    `json:"sampleAfterMs,omitempty"`
 	DisconnectAt        string `json:"disconnectAt,omitempty"`
@@ -103,6 +106,10 @@ func ms(n, def int) time.Duration {
 func runRetry(sc *RetryScenario) *RetryResult {
 	w := netsim.NewWorld(sc.Plan)
 	w.DeliverOnRel = sc.Opts.DeliverOnRel
+	if sc.Opts.GrantCap != nil {
+		w.GrantCap = *sc.Opts.GrantCap
+	}
+	w.PromptAcks = sc.Opts.PromptAcks
 	w.AutoRelease = true
 	rec := w.Rec
 	info := map[string]interface{}{}
@@ -292,15 +299,21 @@ func runRetry(sc *RetryScenario) *RetryResult {
 		switch r.K {
 		case "pub":
 			nreq++
-			m := &mqtt.Message{Topic: "t", QoS: mqtt.QoS(r.Q), Payload: netsim.PayloadOf(nreq), Retain: r.Retain}
+			m := &mqtt.Message{Topic: "t", QoS: mqtt.QoS(r.Q), Payload: netsim.PayloadOf(nreq), Retain: r.Retain, ID: uint16(r.PID)}
 			if sc.Opts.ReuseMessage {
 				// only sound between completed publishes (scenarios place these at "idle")
 				reused.Topic, reused.QoS, reused.Payload, reused.Retain, reused.ID = m.Topic, m.QoS, m.Payload, m.Retain, 0
 				m = reused
 			}
 			cseq := rec.Emit(netsim.Event{"e": "SubmitCall", "i": nreq})
+			if sc.Opts.DirectQoS0 && r.Q == 0 && rc.Client() == nil {
+				// DirectlyPublishQoS0 hands the message to the current client; before the first SetClient there is none
+				// (the library dereferences nil there: outside the listed properties, DESIGN.md 13.6).  Not submitted.
+				rec.Emit(netsim.Event{"e": "Submit", "i": nreq, "k": "pub", "q": r.Q, "retain": r.Retain, "pid": r.PID, "fs": []string{}, "qs": []int{}, "res": "not-submitted", "cseq": cseq})
+				return
+			}
 			err := cli.Publish(ctx, m)
-			rec.Emit(netsim.Event{"e": "Submit", "i": nreq, "k": "pub", "q": r.Q, "retain": r.Retain, "fs": []string{}, "qs": []int{}, "res": netsim.ErrClass(err), "cseq": cseq})
+			rec.Emit(netsim.Event{"e": "Submit", "i": nreq, "k": "pub", "q": r.Q, "retain": r.Retain, "pid": r.PID, "fs": []string{}, "qs": []int{}, "res": netsim.ErrClass(err), "cseq": cseq})
 		case "sub":
 			nreq++
 			subs := make([]mqtt.Subscription, len(r.Subs))
